@@ -7,10 +7,12 @@ SPEC = {
     "rule": "histories = seeded random request/tick sequences over 1-5 sources on a TokenLimiter with 1-3 rates "
             "(periods 0.5s..60s, averages 1..100, bursts 1..12*average), capacity 1..8 or 65536; modes: mixed, sustained "
             "traffic over many entry lifetimes, idle gaps around burst*tpt and the expiry second, retry at the advertised "
-            "instant; non-trivial = contains admitted and rejected requests; distinct = distinct (config, op sequence)",
+            "instant; one history in six has a rate extractor and requests carrying alternative rate sets; non-trivial = contains admitted and rejected requests; distinct = distinct (config, op sequence)",
     "trusted_base": ["models coq/Model/Bucket.v, Limiter.v hand-written from ratelimit/bucket.go, bucketset.go, tokenlimiter.go "
                      "and collections/ttlmap.go; tie = differential replay incl. bucket levels read through verif hooks",
                      "container/heap tie-breaking among equal expiries is an oracle input validated to be minimal"],
     "assumptions": ["consumeRates is atomic (tl.mutex)", "int64 overflow not modelled; period/average is Go integer division",
-                    "rates fixed per limiter (per-request rate extraction not exercised)"],
+                    "the window bound (C03) and the retry/idle clauses (C13) are stated for the limiter's configured rates; one history in six "
+                    "runs a limiter with a rate extractor (per-request rate sets, failing extractor, empty set), modelled by "
+                    "consume_rates_full (TokenBucketSet.Update in full) and proved equal to the static model on histories without them"],
 }
